@@ -135,65 +135,6 @@ Definition bytes_split (s sep : bytes) : list bytes :=
   | _ => split_at_sep (S (List.length s)) sep s []
   end.
 
-Definition binop_add (l r : jv) : nres :=
-  match l, r with
-  | VNum a, VNum b => NOk (VNum (num_add a b))
-  | VStr a, VStr b => ok_str (a ++ b)
-  | VArr a, VArr b => NOk (VArr (a ++ b))
-  | VObj a, VObj b => NOk (VObj (obj_merge a b))
-  | VNull, _ => NOk r
-  | _, VNull => NOk l
-  | _, _ => err EBinopType
-  end.
-
-Definition binop_sub (l r : jv) : nres :=
-  match l, r with
-  | VNum a, VNum b => NOk (VNum (num_sub a b))
-  | VArr a, VArr b => NOk (VArr (filter (fun x => negb (existsb (fun y => jv_eqb x y) b)) a))
-  | _, _ => err EBinopType
-  end.
-
-Definition binop_mul (l r : jv) : nres :=
-  match l, r with
-  | VNum a, VNum b => NOk (VNum (num_mul a b))
-  | VObj a, VObj b => NOk (VObj (deep_merge (jv_depth l + jv_depth r) a b))
-  | VStr s, VNum n => repeat_string s (to_float n)
-  | VNum n, VStr s => repeat_string s (to_float n)
-  | _, _ => err EBinopType
-  end.
-
-Definition binop_div (l r : jv) : nres :=
-  match l, r with
-  | VNum (NInt a), VNum (NInt b) =>
-      if b =? 0 then err EZeroDivision
-      else if Z.rem a b =? 0 then ok_int (Z.quot a b)
-      else NOk (VFlt (f_div (z2f a) (z2f b)))
-  | VNum a, VNum b =>
-      let fb := to_float b in
-      if f_eqb fb f_zero then err EZeroDivision else NOk (VFlt (f_div (to_float a) fb))
-  | VStr a, VStr b =>
-      match a with
-      | [] => NOk (VArr [])
-      | _ => NOk (VArr (map VStr (bytes_split a b)))
-      end
-  | _, _ => err EBinopType
-  end.
-
-Definition binop_mod (l r : jv) : nres :=
-  match l, r with
-  | VNum (NInt a), VNum (NInt b) => if b =? 0 then err EZeroModulo else ok_int (Z.rem a b)
-  | VNum a, VNum b =>
-      let fa := to_float a in let fb := to_float b in
-      if f_is_nan fa || f_is_nan fb then NOk (VFlt f_nan)
-      else let ri := float_to_int fb in
-           if ri =? 0 then err EZeroModulo else ok_int (Z.rem (float_to_int fa) ri)
-  | _, _ => err EBinopType
-  end.
-
-Definition binop_alt (l r : jv) : nres := NOk (if truthy l then l else r).
-
-Definition cmp_is (f : comparison -> bool) (l r : jv) : nres := ok_bool (f (jv_cmp l r)).
-
 (* ------------------------------------------------------------------------------------------ *)
 (* JSON text of a value (encoder.go) — floats only when integral below 2^53, NaN, infinities *)
 
@@ -276,6 +217,159 @@ Definition fn_tojson (v : jv) : nres :=
 Definition fn_tostring (v : jv) : nres :=
   match v with VStr _ => NOk v | _ => fn_tojson v end.
 
+
+(* ------------------------------------------------------------------------------------------ *)
+(* error message texts (error.go), for the error types whose text names no function: what `catch`
+   receives.  None = the model does not reproduce the text (float formatting) -> the case is skipped *)
+
+(* unicode/utf8 DecodeLastRune: size of the last rune of a byte string *)
+Definition last_rune_size (bs : bytes) : nat :=
+  let n := List.length bs in
+  match rev bs with
+  | [] => O
+  | b :: _ =>
+      if (b <? 128)%N then 1%nat
+      else
+        let is_start (c : N) : bool := negb ((128 <=? c) && (c <=? 191))%N in
+        let try_k (k : nat) : option nat :=
+          match nth_error (rev bs) (k - 1) with
+          | Some c => if is_start c then
+                        match decode_rune (skipn (n - k) bs) with
+                        | Some (_, rest) => if Nat.eqb (List.length rest) 0 then Some k else Some 1%nat
+                        | None => Some 1%nat
+                        end
+                      else None
+          | None => Some 1%nat
+          end in
+        match try_k 1%nat with
+        | Some k => k
+        | None => match try_k 2%nat with
+                  | Some k => k
+                  | None => match try_k 3%nat with
+                            | Some k => k
+                            | None => match try_k 4%nat with Some k => k | None => 1%nat end
+                            end
+                  end
+        end
+  end.
+
+Fixpoint trim_runes (fuel : nat) (limit : nat) (bs : bytes) : bytes :=
+  match fuel with
+  | O => bs
+  | S f => if (limit <? List.length bs)%nat
+           then trim_runes f limit (firstn (List.length bs - last_rune_size bs) bs)
+           else bs
+  end.
+
+(* preview.go Preview: the JSON text cut to 30 bytes *)
+Definition preview (v : jv) : option bytes :=
+  match to_json v with
+  | None => None
+  | Some js =>
+      let bs := firstn 32 js in
+      if (List.length bs <=? 30)%nat then Some bs
+      else
+        let trailing := match v with
+                        | VStr _ => codes " ...""" | VArr _ => codes " ...]" | VObj _ => codes " ...}" | _ => codes " ..."
+                        end in
+        Some (trim_runes 40 (30 - List.length trailing) bs ++ trailing)
+  end.
+
+(* error.go typeErrorPreview *)
+Definition tep (v : jv) : option bytes :=
+  match v with
+  | VNull => Some (codes "null")
+  | _ => option_map (fun p => type_name v ++ codes " (" ++ p ++ codes ")") (preview v)
+  end.
+
+Definition msg1 (pre : string) (v : jv) : option jv :=
+  option_map (fun t => VStr (codes pre ++ t)) (tep v).
+Definition msg2 (pre : string) (l : jv) (mid : string) (r : jv) : option jv :=
+  match tep l, tep r with
+  | Some a, Some b => Some (VStr (codes pre ++ a ++ codes mid ++ b))
+  | _, _ => None
+  end.
+
+Definition err_binop (name : string) (l r : jv) : nres :=
+  NErr EBinopType (msg2 ("cannot " ++ name ++ ": ") l " and " r).
+Definition err_zero_div (l r : jv) : nres := NErr EZeroDivision (msg2 "cannot divide " l " by: " r).
+Definition err_zero_mod (l r : jv) : nres := NErr EZeroModulo (msg2 "cannot modulo " l " by: " r).
+Definition err_exp_object (v : jv) : nres := NErr EExpectedObject (msg1 "expected an object but got: " v).
+Definition err_exp_array (v : jv) : nres := NErr EExpectedArray (msg1 "expected an array but got: " v).
+Definition err_key_not_string (v : jv) : nres :=
+  NErr EObjectKeyNotString (msg1 "expected a string for object key but got: " v).
+Definition err_arr_index (v : jv) : nres :=
+  NErr EArrayIndexNotNumber (msg1 "expected a number for indexing an array but got: " v).
+Definition err_str_index (v : jv) : nres :=
+  NErr EStringIndexNotNumber (msg1 "expected a number for indexing a string but got: " v).
+Definition err_start_end (v : jv) : nres :=
+  NErr EExpectedStartEnd (msg1 "expected ""start"" and ""end"" for slicing but got: " v).
+Definition err_unary (name : string) (v : jv) : nres := NErr EUnaryType (msg1 ("cannot " ++ name ++ ": ") v).
+Definition msg_iterator (v : jv) : option jv := msg1 "cannot iterate over: " v.
+Definition msg_invalid_path (v : jv) : option jv := msg1 "invalid path against: " v.
+Definition msg_invalid_path_iter (v : jv) : option jv := msg1 "invalid path on iterating against: " v.
+
+(* the operators *)
+Definition binop_add (l r : jv) : nres :=
+  match l, r with
+  | VNum a, VNum b => NOk (VNum (num_add a b))
+  | VStr a, VStr b => ok_str (a ++ b)
+  | VArr a, VArr b => NOk (VArr (a ++ b))
+  | VObj a, VObj b => NOk (VObj (obj_merge a b))
+  | VNull, _ => NOk r
+  | _, VNull => NOk l
+  | _, _ => err_binop "add" l r
+  end.
+
+Definition binop_sub (l r : jv) : nres :=
+  match l, r with
+  | VNum a, VNum b => NOk (VNum (num_sub a b))
+  | VArr a, VArr b => NOk (VArr (filter (fun x => negb (existsb (fun y => jv_eqb x y) b)) a))
+  | _, _ => err_binop "subtract" l r
+  end.
+
+Definition binop_mul (l r : jv) : nres :=
+  match l, r with
+  | VNum a, VNum b => NOk (VNum (num_mul a b))
+  | VObj a, VObj b => NOk (VObj (deep_merge (jv_depth l + jv_depth r) a b))
+  | VStr s, VNum n => repeat_string s (to_float n)
+  | VNum n, VStr s => repeat_string s (to_float n)
+  | _, _ => err_binop "multiply" l r
+  end.
+
+Definition binop_div (l r : jv) : nres :=
+  match l, r with
+  | VNum (NInt a), VNum (NInt b) =>
+      if b =? 0 then err_zero_div l r
+      else if Z.rem a b =? 0 then ok_int (Z.quot a b)
+      else NOk (VFlt (f_div (z2f a) (z2f b)))
+  | VNum a, VNum b =>
+      let fb := to_float b in
+      if f_eqb fb f_zero then err_zero_div l r else NOk (VFlt (f_div (to_float a) fb))
+  | VStr a, VStr b =>
+      match a with
+      | [] => NOk (VArr [])
+      | _ => NOk (VArr (map VStr (bytes_split a b)))
+      end
+  | _, _ => err_binop "divide" l r
+  end.
+
+Definition binop_mod (l r : jv) : nres :=
+  match l, r with
+  | VNum (NInt a), VNum (NInt b) => if b =? 0 then err_zero_mod l r else ok_int (Z.rem a b)
+  | VNum a, VNum b =>
+      let fa := to_float a in let fb := to_float b in
+      if f_is_nan fa || f_is_nan fb then NOk (VFlt f_nan)
+      else let ri := float_to_int fb in
+           if ri =? 0 then err_zero_mod l r else ok_int (Z.rem (float_to_int fa) ri)
+  | _, _ => err_binop "modulo" l r
+  end.
+
+Definition binop_alt (l r : jv) : nres := NOk (if truthy l then l else r).
+
+Definition cmp_is (f : comparison -> bool) (l r : jv) : nres := ok_bool (f (jv_cmp l r)).
+
+
 (* ------------------------------------------------------------------------------------------ *)
 (* indexing and slicing (func.go funcIndex2, index, indexString, funcSlice, slice, sliceString) *)
 
@@ -329,7 +423,7 @@ Definition fn_slice (v e s : jv) : nres :=
               | inl (st, en) => ok_str (concat (sublist cs st en))
               | inr c => err c
               end
-  | _ => err EExpectedArray
+  | _ => err_exp_array v
   end.
 
 (* func.go indices (Compare-based subsequence search) *)
@@ -353,7 +447,7 @@ Definition fn_index2 (v x : jv) : nres :=
       match v with
       | VNull => NOk VNull
       | VObj kvs => NOk (match obj_get kvs k with Some w => w | None => VNull end)
-      | _ => err EExpectedObject
+      | _ => err_exp_object v
       end
   | VNum n =>
       let i := to_int n in
@@ -361,27 +455,27 @@ Definition fn_index2 (v x : jv) : nres :=
       | VNull => NOk VNull
       | VArr l => NOk (index_array l i)
       | VStr s => NOk (index_string s i)
-      | _ => err EExpectedArray
+      | _ => err_exp_array v
       end
   | VArr xs =>
       match v with
       | VNull => NOk VNull
       | VArr l => NOk (VArr (map VInt (indices_of l xs)))
-      | _ => err EExpectedArray
+      | _ => err_exp_array v
       end
   | VObj m =>
       match v with
       | VNull => NOk VNull
       | _ => match obj_get m (codes "start"), obj_get m (codes "end") with
              | Some s, Some e => fn_slice v e s
-             | _, _ => err EExpectedStartEnd
+             | _, _ => err_start_end x
              end
       end
   | _ =>
       match v with
-      | VArr _ => err EArrayIndexNotNumber
-      | VStr _ => err EStringIndexNotNumber
-      | _ => err EObjectKeyNotString
+      | VArr _ => err_arr_index x
+      | VStr _ => err_str_index x
+      | _ => err_key_not_string x
       end
   end.
 
@@ -389,7 +483,7 @@ Definition fn_index2 (v x : jv) : nres :=
 Definition fn_indexarray (v : jv) (i : Z) : nres :=
   match v with
   | VNull | VArr _ => fn_index2 v (VInt i)
-  | _ => err EExpectedArray
+  | _ => err_exp_array v
   end.
 
 (* ------------------------------------------------------------------------------------------ *)
@@ -1120,8 +1214,8 @@ Definition natives0 : list (string * (jv -> nres)) :=
     ("ascii_downcase", fn_ascii_downcase); ("ascii_upcase", fn_ascii_upcase);
     ("_tohtml", fn_tohtml); ("_touri", fn_touri); ("_tocsv", fn_tocsv); ("_totsv", fn_totsv); ("_tosh", fn_tosh);
     ("_tobase64", fn_tobase64);
-    ("_plus", fun v => match v with VNum _ => NOk v | _ => err EUnaryType end);
-    ("_negate", fun v => match v with VNum n => NOk (VNum (num_neg n)) | _ => err EUnaryType end);
+    ("_plus", fun v => match v with VNum _ => NOk v | _ => err_unary "plus" v end);
+    ("_negate", fun v => match v with VNum n => NOk (VNum (num_neg n)) | _ => err_unary "negate" v end);
     ("flatten", fun v => fn_flatten v None);
     ("min", fn_minmax true); ("max", fn_minmax false);
     ("sort", fun v => fn_sort_by false v v); ("unique", fun v => fn_unique_by false v v);
